@@ -210,7 +210,13 @@ impl Monitor for C06 {
                             let present2 = list_wal_files(&side);
                             let nums2: Vec<u64> = present2.iter().map(|f| f.0).collect();
                             let disk2 = s2.log().resource_usage().disk_used_bytes as u64;
-                            let all_sized = present2.iter().all(|f| f.1 == d.file_size);
+                            // only the NEWEST file may still be short (created by the crashed
+                            // roll-over and not rolled into yet): the comparison is skipped in
+                            // that state alone; a short file that is NOT the newest stays short
+                            // for ever and is compared as it is
+                            let newest_n = nums2.iter().max().copied();
+                            let older_short = present2.iter().any(|f| Some(f.0) != newest_n && f.1 != d.file_size);
+                            let all_sized = present2.iter().all(|f| f.1 == d.file_size) || older_short;
                             acc.eval();
                             acc.count("checks_on_a_log_continued_after_a_crash_inside_roll_over");
                             let detail2 = |what: &str| json!({"history": d.history_json(400), "crash_image_taken_inside_call": st.op.to_json(), "crash_image_kind": img_kind, "continuation": crate::ops::ops_json(&cont[..=j]), "violated": what, "wal_files_present": present2.iter().map(|f| json!({"number": f.0, "size": f.1})).collect::<Vec<_>>(), "disk_used_bytes": disk2});
